@@ -8,7 +8,7 @@ V = registry.V
 TECH_K = "contract-based deductive verification: assume/assert contract harnesses on the real functions discharged by Kani/CBMC (callers checked against callee contracts via stubs)"
 TECH_V = "contract-based deductive verification: requires/ensures + inductive lemmas discharged by Verus/Z3 on function bodies extracted verbatim from /repo on every run"
 NOTE = {
- "C01": "Assumed (named): pass-1/pass-2 loops of SymbolTable::new / ObjectFile::new incl. the lc+1 call site and .fill/.stringz/.blkw emission; label map construction. Bounded: .stringz size (<= 4 bytes), label offset (1 label, thorough tier). Trusted: rustc, Kani, CBMC, CaDiCaL, Verus, Z3, vstd; assumed specs for core::mem::take and u16::wrapping_neg.",
+ "C01": "Assumed (named): pass-1/pass-2 statement loops of SymbolTable::new / ObjectFile::new incl. the lc+1 call site and which block a statement is written to; label map construction. The block writer ObjBlock (nested items, extracted verbatim each run) is under contract: .fill/.blkw/.stringz emission. Bounded: .stringz (<= 4 bytes), .blkw (n = 1, 4), label offset and .fill LABEL (1 label). Trusted: rustc, Kani, CBMC, CaDiCaL, Verus, Z3, vstd; assumed specs for core::mem::take and u16::wrapping_neg.",
  "C02": "Assumed (named): block nesting, duplicate-label detection, neighbour-only overlap search, never-panics-on-any-program (all inside the pass loops). Trusted: Verus/Z3/vstd, Kani/CBMC; assumed specs for core::mem::take, u16::wrapping_neg.",
  "C05": "Assumed: which validator the logos DFA dispatches a literal to, malformed literals, and the .blkw non-zero test inside Directive::parse. Bounded: validators called directly with 1-6 digits. alloc::fmt::format is stubbed by a panicking function in the value conversions (checked unreachable) and by a constant in the register-token harness. Trusted: rustc/Kani/CBMC.",
  "C06": "rustc/Kani/CBMC/CaDiCaL trusted; std verified through",
